@@ -46,3 +46,7 @@ for name in which:
         for l in out: print('  ',l[:600])
     finally:
         subprocess.run(['git','checkout','--','.'],cwd=REPO)
+    if r.returncode == 1 and not name.startswith('T'):
+        # the shrunk failing input must be quiet on the clean tree (it stays inside the hypotheses)
+        r2=subprocess.run(['./check','C19','--replay','replays/C19-0.json'],cwd=VERIF,capture_output=True,text=True)
+        print('   replay on the clean tree: rc',r2.returncode)
